@@ -35,6 +35,9 @@ pub struct TCell {
     pub must_park: AtomicBool,
     pub tid: AtomicI32,
     pub in_io: AtomicBool,
+    /// the thread is parked in the harness waiting for the token (set and read under the
+    /// scheduler mutex): a token holder that has not woken up yet is slow, not blocked
+    pub waiting: AtomicBool,
 }
 
 pub struct Shared {
@@ -413,11 +416,14 @@ impl SimThread {
     }
 
     fn wait_token<'a>(&'a self, mut g: MutexGuard<'a, Sched>) -> MutexGuard<'a, Sched> {
+        let cell = &self.shared.tcells[self.idx];
+        cell.waiting.store(true, Ordering::Relaxed);
         while g.current != Some(self.idx) {
             g = self.shared.cvs[self.idx]
                 .wait(g)
                 .unwrap_or_else(|e| e.into_inner());
         }
+        cell.waiting.store(false, Ordering::Relaxed);
         g
     }
 
@@ -688,8 +694,11 @@ pub fn drive(
             }
             Some(cur) => {
                 let cell = &shared.tcells[cur];
-                if cell.in_io.load(Ordering::Relaxed) {
+                if cell.in_io.load(Ordering::Relaxed) || cell.waiting.load(Ordering::Relaxed) {
+                    // waiting for the reference server, or handed the token but not yet
+                    // woken up by the OS (a loaded machine): neither is the library blocking
                     stuck = 0;
+                    spinning = 0;
                     continue;
                 }
                 let tid = cell.tid.load(Ordering::Relaxed);
@@ -744,6 +753,7 @@ pub fn new_shared(spec: &RunSpec, keep_log: bool) -> (Arc<Shared>, Vec<Arc<SimTh
                 must_park: AtomicBool::new(false),
                 tid: AtomicI32::new(0),
                 in_io: AtomicBool::new(false),
+                waiting: AtomicBool::new(false),
             })
             .collect(),
     });
